@@ -79,7 +79,7 @@ type kindMap struct {
 	Shift   int
 	Rev     bool
 	NamedID bool // the ID field is of a defined string type (Check accepts it)
-	// Decoy: every field is preceded by another one that shares its json name, has another Go type
+	// Decoy: every field is preceded (every other one: followed) by another one that shares its json name, has another Go type
 	// and an api tag that is neither attr nor rel ("related"): no field of the resource at all
 	Decoy bool
 }
@@ -204,20 +204,24 @@ func structType(name string, fields defMap, km kindMap) reflect.Type {
 				api += "," + d.TN
 			}
 		}
-		if km.Decoy {
-			dt := reflect.TypeOf(0)
-			if typ.Kind() == reflect.Int {
-				dt = reflect.TypeOf("")
-			}
-			sf = append(sf, reflect.StructField{
-				Name: fmt.Sprintf("D%d", i), Type: dt,
-				Tag: reflect.StructTag(fmt.Sprintf(`json:"%s" api:"%s"`, f, []string{"related", "relation,tt", "attribute"}[i%3])),
-			})
+		dt := reflect.TypeOf(0)
+		if typ.Kind() == reflect.Int {
+			dt = reflect.TypeOf("")
+		}
+		decoy := reflect.StructField{
+			Name: fmt.Sprintf("D%d", i), Type: dt,
+			Tag: reflect.StructTag(fmt.Sprintf(`json:"%s" api:"%s"`, f, []string{"related", "relation,tt", "attribute"}[i%3])),
+		}
+		if km.Decoy && i%2 == 0 {
+			sf = append(sf, decoy)
 		}
 		sf = append(sf, reflect.StructField{
 			Name: fmt.Sprintf("F%d", i), Type: typ,
 			Tag: reflect.StructTag(fmt.Sprintf(`json:"%s" api:"%s"`, f, api)),
 		})
+		if km.Decoy && i%2 == 1 {
+			sf = append(sf, decoy) // (every other decoy follows the field it shadows)
+		}
 	}
 	t := reflect.StructOf(sf)
 	structCache[key.String()] = t
